@@ -246,12 +246,6 @@ def insert(
     module = block.module
     cfg = block.ir.cfg
 
-    _add_return_edges_for_patch_calls(
-        cache,
-        module,
-        code.cfg,
-    )
-
     if isinstance(block, gtirb.CodeBlock):
         _update_patch_return_edges_to_match(
             cache, block, code.cfg, code.proxies
@@ -264,6 +258,14 @@ def insert(
             cache, end_block, replacement_length
         )
         remove_block(cache, mid_block)
+
+    # This has to see the blocks as they are after the split: the patch may
+    # call the very function it is being inserted into.
+    _add_return_edges_for_patch_calls(
+        cache,
+        module,
+        code.cfg,
+    )
 
     # Stitch in the new blocks to the CFG
     if added_fallthrough:
